@@ -107,8 +107,17 @@ class Gen:
         elif ok and isinstance(v, str):
             pass
         else:
-            alphabet = ["a", "b", "/", "\\", ".", "..", "c:", " ", "é", "あ", "\U0001F600", "\x01", "0", "9", "k", "M"]
-            v = "".join(self.rnd.choice(alphabet) for _ in range(self.rnd.randrange(0, 7)))
+            alphabet = ["a", "b", "/", "\\", ".", "..", "c:", " ", "é", "あ", "\U0001F600", "\x01", "0", "9", "k", "M", "B", "g", "\u3000", "1"]
+            r = self.rnd.random()
+            if r < 0.35:
+                # path-shaped: components joined by '/'
+                comps = [self.rnd.choice([".", "..", "a", "b", "", "dafj08sajfa", "c:", "x.7z"]) for _ in range(self.rnd.randrange(1, 5))]
+                v = ("/" if self.rnd.random() < 0.15 else "") + "/".join(comps)
+            elif r < 0.5:
+                # number with an optional unit suffix
+                v = str(self.rnd.choice([0, 1, 7, 100, 30000, 123456789])) + self.rnd.choice(["", "b", "B", "k", "K", "m", "M", "g", "G", "x", "kb", "\n"])
+            else:
+                v = "".join(self.rnd.choice(alphabet) for _ in range(self.rnd.randrange(0, 7)))
         self.used[name] = v
         return v
 
